@@ -9,7 +9,10 @@ from tartiflette.execution.collect import collect_fields
 from tartiflette.execution.context import build_execution_context
 from tartiflette.execution.helpers import get_field_definition
 from tartiflette.execution.types import build_resolve_info
-from tartiflette.utils.errors import extract_exceptions_from_results
+from tartiflette.utils.errors import (
+    extract_exceptions_from_results,
+    located_error,
+)
 from tartiflette.utils.values import is_invalid_value
 
 __all__ = (
@@ -341,15 +344,22 @@ async def create_source_event_stream(
         Path(None, response_name),
     )
 
-    return field_definition.subscribe(
-        root_value,
-        await coerce_arguments(
+    try:
+        arguments = await coerce_arguments(
             field_definition.arguments,
             field_nodes[0],
             execution_context.variable_values,
             execution_context.context,
             coercer=field_definition.arguments_coercer,
-        ),
-        execution_context.context,
-        info,
+        )
+    except Exception as e:  # pylint: disable=broad-except
+        # A failing argument coercion is a field error: it is answered with an
+        # error response instead of escaping from the subscription
+        execution_context.add_error(
+            located_error(e, field_nodes, info.path.as_list())
+        )
+        return await response_builder(errors=execution_context.errors)
+
+    return field_definition.subscribe(
+        root_value, arguments, execution_context.context, info
     )
